@@ -1,6 +1,6 @@
 import FlytModel.Generated.IR
 import FlytModel.Expected.IR
-/-! The translation of `BatchNodeBuilder_Prep` from the CURRENT source is, term for term, the IR the refinement theorems are about. -/
+/-! The translation of `BatchNodeBuilder_Prep` from the CURRENT source is, term for term, the expected IR. -/
 namespace Flyt.Tie
 theorem BatchNodeBuilder_Prep : Flyt.Generated.IR.BatchNodeBuilder_Prep = Flyt.Expected.IR.BatchNodeBuilder_Prep := rfl
 end Flyt.Tie
